@@ -32,14 +32,16 @@ type keyCert struct {
 var keyMu sync.Mutex
 var keyCache = map[string]*rsa.PrivateKey{}
 
-func poolKey(c *Ctx, bits, idx int) *rsa.PrivateKey {
+func poolKey(c *Ctx, bits, idx int) *rsa.PrivateKey { return poolKeyDir(c.VerifDir, bits, idx) }
+
+func poolKeyDir(verifDir string, bits, idx int) *rsa.PrivateKey {
 	keyMu.Lock()
 	defer keyMu.Unlock()
 	name := fmt.Sprintf("rsa%d-%d.pem", bits, idx)
 	if k, ok := keyCache[name]; ok {
 		return k
 	}
-	dir := filepath.Join(c.VerifDir, ".build", "keys")
+	dir := filepath.Join(verifDir, ".build", "keys")
 	os.MkdirAll(dir, 0o755)
 	p := filepath.Join(dir, name)
 	if b, err := os.ReadFile(p); err == nil {
@@ -65,7 +67,7 @@ type certShape struct {
 	desc   string
 }
 
-func certShapes(c *Ctx) []certShape {
+func certShapes(_ *Ctx) []certShape {
 	long := strings.Repeat("Very Long Organisation Name ", 8)
 	b20 := make([]byte, 20)
 	for i := range b20 {
